@@ -26,7 +26,7 @@ def import_tet(path : str):
     return output
 
 def parse_tet_data(data):
-    data = deque(data)
+    data = deque(line for line in data if line.strip()) # ignore blank lines
     get_line = lambda : data.popleft().strip().split()
     output = RawMeshData()
     nvert = int(get_line()[0])
